@@ -180,6 +180,9 @@ def model1 (d : DState) (l : Line) : Option (State × List Verdict × DState) :=
         | .roots => rootsWF ((g "secs").getD 0) ((g "off").getD 0) ((g "n").getD 0)
         | .write => writeWF (b01 "proof") (b01 "upd") (b01 "ust")
         | .read => true
+      -- a proposal built on an older revision of the session that would raise the renter's valid
+      -- payout or the host's missed payout relative to the latest revision must be refused
+      let wf := wf && !(b01 "neg")
       let (s', out) := revise F s c k cost pay burn wf
       let v := cmp s!"{l.op}.res" (outStr out) (if okRes then "ok" else "rej")
       some (s', v, { d with overpaid := if out == .ok && pay > cost.total then d.overpaid + 1 else d.overpaid })
@@ -251,11 +254,12 @@ def model1 (d : DState) (l : Line) : Option (State × List Verdict × DState) :=
   | "renew2" | "renew3" =>
     match g "c", g "new", g "pay", g "minpay", g "hp", g "mhp", g "vrp", g "price", g "sto", g "bcoll" with
     | some c, some nw, some pay, some minpay, some hp, some mhp, some vrp, some price, some sto, some bcoll =>
-      let (s', out) := renew F s c nw (l.op == "renew3") pay minpay hp mhp vrp price sto bcoll
+      let (s', out) := if (g "neg").getD 0 == 1 then (s, Out.reject)
+                       else renew F s c nw (l.op == "renew3") pay minpay hp mhp vrp price sto bcoll
       let v := cmp s!"{l.op}.res" (outStr out) (if okRes then "ok" else "rej")
       some (s', v, { d with renewals := if out == .ok then d.renewals + 1 else d.renewals })
     | _, _, _, _, _, _, _, _, _, _ => none
-  | "mine" => some (s, [], d)
+  | "mine" | "unlock" => some (s, [], d)
   | _ => none
 
 def step1 (d : DState) (l : Line) : DState × List Verdict :=
